@@ -29,6 +29,7 @@ RULES_DOC["R7"] = ("= C16.R1: the key-table slot is published NULL -> LOCKED -> 
                    "table cannot be allocated (a failed set leaves no lock sentinel behind)")
 RULES_DOC["R8"] = "a routine that receives an array of pool handles frees, on its own paths, only the pools it created itself: every ABTI_pool_free call in it is governed by the test that the caller's slot was ABT_POOL_NULL"
 RULES_DOC["X4"] = common.X4_DOC
+RULES_DOC["R9"] = "= C06.R9: an error path that detaches the caller's pools from a scheduler before freeing it releases the reference it took on each of them"
 RULES_DOC.update({
     "R1": "no dropped error (-Werror=unused-result witness over all units) and no out-parameter read before the result test",
     "R2": "every error return has released or handed over the resources acquired on that path (incl. init_stage ladders)",
@@ -518,4 +519,6 @@ def run(P, rep, tier):
     rule_R5(P, rep)
     c18_commit.rule_R6(P, rep)
     rule_R8(P, rep)
+    from . import c06_refs
+    common.borrow(rep, P, c06_refs.rule_R9, "R9")
     common.borrow(rep, P, C16.rule_R1_R2, "R7", only=("R1",))
